@@ -98,6 +98,9 @@ func (o Op) MarshalJSON() ([]byte, error) {
 		f = append(f, kv{"pkt", o.Pkt}, kv{"alter", strs(o.Alter)}, kv{"enc", o.Enc}, kv{"relayer", o.Relayer}, kv{"fresh_proof", o.FreshProof}, kv{"commit", o.Commit})
 	case "recv_tss":
 		f = append(f, kv{"seq", o.Seq}, kv{"dstself", o.DstSelf}, kv{"relayer", o.Relayer}, kv{"variant", o.Variant}, kv{"commit", o.Commit})
+		if o.Variant == "copy" {
+			f = append(f, kv{"pkt", o.Pkt})
+		}
 		if o.Src != "" {
 			f = append(f, kv{"src", o.Src}, kv{"dst", o.Dst})
 		}
